@@ -9,7 +9,8 @@ PROPS = {
     "C17": dict(
         family="sinks", variants=DEFAULT_MODE_VARIANTS,
         theorems=T("C17", "narrow_sinks_equal", "format_bytes_eq_narrow", "printf_eq_writef", "latin1_sink_eq", "transcode_append",
-                   "wide_sink_eq_partial", "writef_wide_eq_partial", "wide_pad_witness", "wide_cut_witness", "wide_cut_witness_subst",
+                   "wide_sink_eq_partial", "writef_wide_eq_partial", "chunkSafe_of_ascii_pad_and_valid_args", "argSafe_str_iff_natural",
+                   "writef_wide_eq_of_valid_inputs", "wide_pad_witness", "wide_cut_witness", "wide_cut_witness_subst",
                    "insert_eq", "insert_std", "extract_eq"),
         rule="placeholder",
         exhaustive={"quick": False, "thorough": False},
